@@ -66,7 +66,7 @@ LEMMAS = [
     (r"VarInt::size$", r"^panic$", r"unreachable", "type invariant VarInt.0 <= 2^62-1: the else arm is dead", "varint-invariant"),
     # --- ids
     (r"(FrameKind|StreamKind)::is_id_exercise$|SettingId::is_exercise$", r"^Overflow\(Sub\)$", r"into_inner\(id\),33", None, None),
-    (r"QStreamId::into_stream_id$", r"^panic$", r"<< 2 <= VarInt::MAX", "debug-only: QStreamId invariant q <= 2^60-1 so q<<2 <= 2^62-4", "debug-only"),
+    (r"QStreamId::into_stream_id$", r"^panic$", r"<< (2|[\w:]+) <= VarInt::MAX", "debug-only: QStreamId invariant q <= 2^60-1 so q<<2 <= 2^62-4", "debug-only"),
     (r"QStreamId::into_session_id$|SessionId::from_session_stream_unchecked$", r"^panic$", r"is_bidirectional\(\) && stream_id.is_client_initiated\(\)", "debug-only: (q<<2)&3 == 0", "debug-only"),
     # --- frames / headers
     (r"Frame::new$", r"^panic$", r"payload.len\(\) <= VarInt::MAX", "payload.len() <= isize::MAX < 2^62 on 64-bit targets", None),
